@@ -249,6 +249,9 @@ def copyPart (nilish : Bool) (v : Val) (next : Nat) : String :=
     let sh := sortDedup (sharedOf "root" v c)
     s!"equal={if eq then 1 else 0} shared=[{",".intercalate sh}]"
 
+/-- well-typed against the extracted schema (`wellTyped`), to be compared with the harness's reflection check -/
+def wtPart (v : Val) : String := s!"welltyped={if wellTyped T v then 1 else 0}"
+
 def step (_ : Unit) (ts : List String) : Unit × String :=
   match ts with
   | [line] =>
@@ -266,7 +269,7 @@ def step (_ : Unit) (ts : List String) : Unit × String :=
           let tst := treeOf T T.structural v
           let tse := treeOf T T.semantic v
           let walks := scs.map (runScript tst tse)
-          ((), "ok " ++ copyPart (nil == "nilish=1") v next ++ " | " ++ " | ".intercalate walks)
+          ((), "ok " ++ copyPart (nil == "nilish=1") v next ++ " " ++ wtPart v ++ " | " ++ " | ".intercalate walks)
     | some [.atom "tree", .atom scripts, sx] =>
       match toTree sx, (scripts.splitOn ",").mapM parseScript with
       | some t, some scs => ((), "ok | " ++ " | ".intercalate (scs.map (runScript t t)))
